@@ -596,6 +596,7 @@ impl<R: Read, TSpec> TagIterator<R, TSpec>
     pub fn verif_stack(&self) -> &[ProcessingTag<TSpec>] { &self.tag_stack }
     pub fn verif_doc_path_determined(&self) -> bool { self.has_determined_doc_path }
     pub fn verif_queue_len(&self) -> usize { self.emission_queue.len() }
+    pub fn verif_queue_reserve(&mut self, additional: usize) { self.emission_queue.reserve(additional) }
     pub fn verif_queue_pop(&mut self) -> Option<Result<(TSpec, usize), TagIteratorError>> { self.emission_queue.pop_front() }
     pub fn verif_allowed_errors(&self) -> u8 { self.allowed_errors }
     pub fn verif_max_allowed_tag_size(&self) -> Option<usize> { self.max_allowed_tag_size }
